@@ -11,7 +11,22 @@ def gen_cases(run, count, release=True):
     rc, out = C.sh("timeout 600 %s %d %d" % (bins["rt_run"], run.seed, count), timeout=700)
     if rc != 0:
         run.oblige("harness-run rt_run", False, out[-1500:]); return []
-    return [json.loads(l) for l in out.splitlines() if l.startswith("{")]
+    return corpus_cases(bins["rt_run"]) + [json.loads(l) for l in out.splitlines() if l.startswith("{")]
+
+def corpus_cases(binary):
+    """corpus/rt/*.json: minimized cases kept from earlier disagreements; replayed on the implementation first."""
+    import glob, subprocess
+    out = []
+    for f in sorted(glob.glob(os.path.join(C.ROOT, "corpus", "rt", "*.json"))):
+        c = json.load(open(f))
+        try:
+            r = subprocess.run([binary, "1", "0", "", "replay", c["host"], c["prog"], c["handlers"], c["acts"]], capture_output=True, text=True, timeout=60)
+            obs = r.stdout.strip() if r.returncode == 0 and r.stdout.strip().startswith("[") else "[OPanic]"
+        except Exception:
+            obs = "[OPanic]"
+        out.append({"idx": -1, "seed": 0, "drained": bool(c.get("drained")), "host": c["host"], "prog": c["prog"], "handlers": c["handlers"], "acts": c["acts"],
+                    "impl": obs, "size": 6, "depth": 1, "hist": {}, "ahist": {}, "corpus": os.path.basename(f)})
+    return out
 
 def gen_enum_cases(run, stride):
     """Exhaustive small scope (rt_run enum mode): every stride-th case of the full enumeration, offset by the seed."""
